@@ -1,5 +1,6 @@
 from __future__ import annotations
 
+import hashlib
 import re
 import sys
 import unicodedata
@@ -120,6 +121,10 @@ def read(file: Path) -> Model:
 
     """
     model = pysbml.load_and_transform_model(file)
-    out_name = valid_filename(file.stem)
+    # The generated module stays on disk as the source of the model's functions.
+    # Name it after the content, so that another document with the same stem
+    # cannot replace it while the model is in use.
+    digest = hashlib.sha256(file.read_bytes()).hexdigest()[:12]
+    out_name = f"{valid_filename(file.stem)}_{digest}"
     model_fn = import_from_path(out_name, _codegen(out_name, model))
     return model_fn()
